@@ -9,6 +9,7 @@ import Driver.UeqCmd
 import Driver.CanonCmd
 import Driver.MappedCmd
 import Driver.SerdeCmd
+import Driver.DeCmd
 import Driver.MacroCmd
 /-!
 Line-protocol driver: one request per line on stdin, one reply per line on stdout.
@@ -27,6 +28,9 @@ def handle (line : String) : String :=
   | "ueq" :: args => ueqCmd args
   | "canon" :: args => canonCmd args
   | "mapped" :: args => mappedCmd args
+  | "serde" :: "rt" :: args => deCmd ("rt" :: args)
+  | "serde" :: "de" :: args => deCmd ("de" :: args)
+  | "serde" :: "fromvalm" :: args => deCmd ("fromvalm" :: args)
   | "serde" :: args => serdeCmd args
   | "macro" :: args => macroCmd args
   | _ => "bad-op"
